@@ -312,7 +312,7 @@ def dispatch(drv, prop, tier, args):
             print("MACHINERY-ERROR guard-off C16 run did not produce its part", file=sys.stderr)
             return 2
         return harness(drv, prop, tier, args, guard_on=True, extra_args=["--merge-part", part])
-    if prop == "C06":
+    if prop in ("C06", "C07"):
         # the concurrent part first (schedule explorer: honest and tampered openers side by side), merged into the
         # harness's evidence
         tdir, out = drv.build(guard_on=True, extra=["--bin", "sched"])
@@ -322,14 +322,14 @@ def dispatch(drv, prop, tier, args):
         if "--replay" in args:
             rp = json.load(open(args[args.index("--replay") + 1]))
             if rp.get("part", "").startswith("E3b-"):
-                return drv.run([sched, "C06", "--root", drv.ROOT] + args, cwd=drv.ROOT)
+                return drv.run([sched, prop, "--root", drv.ROOT] + args, cwd=drv.ROOT)
             return harness(drv, prop, tier, args)
-        part = os.path.join(drv.ROOT, "target", "c06_sched_part.json")
+        part = os.path.join(drv.ROOT, "target", f"{prop.lower()}_sched_part.json")
         if os.path.exists(part):
             os.remove(part)
-        rc = drv.run([sched, "C06", "--root", drv.ROOT, "--emit-part", part] + args, cwd=drv.ROOT)
+        rc = drv.run([sched, prop, "--root", drv.ROOT, "--emit-part", part] + args, cwd=drv.ROOT)
         if rc != 0 or not os.path.exists(part):
-            print("MACHINERY-ERROR the schedule explorer did not produce its C06 part", file=sys.stderr)
+            print(f"MACHINERY-ERROR the schedule explorer did not produce its {prop} part", file=sys.stderr)
             return 2
         return harness(drv, prop, tier, args, extra_args=["--merge-part", part])
     if prop in HARNESS_PROPS:
